@@ -356,111 +356,11 @@ def queue_kept(ctx, facts):
 # ------------------------------------------------------------------ P8
 
 def P8(ctx, facts):
-    f = facts.unit(facts.fn("client::pool::Pool::checkout"))
-    ctx.touched(f)
-    ap = AbsPaths(f)
-    pops = f.calls("client::pool::PoolInner::pop")
-    ctx.floor("Pool::checkout|pop", len(pops), 1, "PoolInner::pop in Pool::checkout")
-    mut = calls_on_field(f, "waiting") + calls_on_field(f, "connecting")
-    ctx.floor("Pool::checkout|map-accesses", len(mut), 3, "accesses to waiting / connecting in Pool::checkout")
-    for c in mut:
-        ok, w = f.must_pass(0, [c.bb], {p.bb for p in pops})
-        ctx.check(ok, "Pool::checkout|pop-first|%s" % norm(c.name).split("::")[-1], "the idle list is consulted before waiting / connecting are touched",
-                  "waiting/connecting touched before the idle list is consulted", c.where(), f.path_desc(w))
-    news = f.calls("client::pool::checkout::Checkout::new")
-    ctx.floor("Pool::checkout|Checkout::new", len(news), 1, "Checkout::new calls in Pool::checkout")
-    some_pop = L_variant(f, "Some", of_call="client::pool::PoolInner::pop")
-    contains = calls_on_field(f, "connecting", HSET + "::contains")
-    ctx.floor("Pool::checkout|contains", len(contains), 1, "connecting.contains in Pool::checkout")
-    dep_true = L_call(f, HSET + "::contains", True)
-    dep_false = L_call(f, HSET + "::contains", False)
-    pb = f.calls(VDQ + "::push_back")
-    ctx.floor("Pool::checkout|enqueue", len(pb), 1, "enqueue of the checkout's sender")
-    # The three outcomes, decided per path class (not per call site: one shared Checkout::new fed by a conditional
-    # `connector` is the same program as three separate calls).  A class is the set of feasible paths that take the
-    # edges of its name; on every such path reaching a Checkout::new the abstract values of its connector /
-    # connection arguments are read off.
-    E = f.edges()
-    pop_some = {(x, y) for (x, y, lab) in E if lab is not None and some_pop(lab)}
-    pop_sw = {x for (x, y) in pop_some}
-    pop_none = {(x, y) for (x, y, lab) in E if x in pop_sw and (x, y) not in pop_some}
-    dep_t = {(x, y) for (x, y, lab) in E if lab is not None and dep_true(lab)}
-    dep_f = {(x, y) for (x, y, lab) in E if lab is not None and dep_false(lab)}
-    ctx.floor("Pool::checkout|pop-test", len(pop_some), 1, "Some edge of PoolInner::pop")
-    ctx.floor("Pool::checkout|dependent-test", min(len(dep_t), len(dep_f)), 1, "both edges of connecting.contains(token)")
-    is_none = lambda vs: bool(vs) and all(v is not None and v[0] == "variant" and v[1] == "None" for v in vs)
-    is_some = lambda vs: bool(vs) and all(v is not None and v[0] == "variant" and v[1] == "Some" for v in vs)
-    classes = {"idle": pop_none, "dependent": pop_some | dep_f, "dial": pop_some | dep_t}
-    kinds = {}
-    for cls, avoid in classes.items():
-        seen_sites = {}
+    """Which kind of checkout a request gets and what it registers: decision table of `Pool::checkout` with `Checkout::new`
+    spliced in (pooltable.py) - idle hit / in-flight attempt / dial, x multiplexing x continue-after-preemption."""
+    import pooltable
+    pooltable.checkout_table(ctx, facts)
 
-        def obs(bb, st, seen_sites=seen_sites):
-            for c in news:
-                if c.bb == bb:
-                    seen_sites.setdefault(c.bb, (set(), set()))
-                    seen_sites[c.bb][0].add(ap._eval_operand(st, c.args[3]))
-                    seen_sites[c.bb][1].add(ap._eval_operand(st, c.args[4]))
-        try:
-            reached, _ = ap.explore(0, avoid_edges=avoid, observe=obs)
-        except AbsPaths.Undecided as e:
-            ctx.undecided("Pool::checkout|%s" % cls, str(e))
-            continue
-        kinds[cls] = len(seen_sites)
-        # every path of the class ends in a Checkout::new (the request is never dropped on the floor)
-        for c in news:
-            if c.bb not in seen_sites:
-                continue
-            connector_vals, conn_vals = seen_sites[c.bb]
-            if cls == "idle":
-                ctx.check(is_none(connector_vals) and is_some(conn_vals), "Pool::checkout|idle-hit",
-                          "on an idle hit the checkout carries the popped connection and no connector (no dial)",
-                          "idle hit builds a checkout with connector=%s connection=%s" % (sorted(map(str, connector_vals)), sorted(map(str, conn_vals))), c.where())
-                cr = f.roots(c.args[4], through_calls=False)
-                ctx.check(any(r.kind == "call" and r.site.is_("client::pool::PoolInner::pop") for r in cr), "Pool::checkout|idle-hit-conn",
-                          "the connection handed to the checkout is the one popped", "connection roots: %s" % sorted(map(repr, cr)), c.where())
-                ctx.check(not any(x.bb in reached for x in pb), "Pool::checkout|idle-hit-no-enqueue", "an idle hit does not enqueue a waiter", "idle hit enqueues a waiter", c.where())
-            elif cls == "dependent":
-                ctx.check(is_none(connector_vals) and is_none(conn_vals), "Pool::checkout|dependent-no-dial",
-                          "while an attempt is in flight a further checkout gets no connector (it waits instead of dialing)",
-                          "a checkout that found an in-flight attempt still gets connector=%s" % sorted(map(str, connector_vals)), c.where())
-            else:
-                ctx.check(is_some(connector_vals) and is_none(conn_vals), "Pool::checkout|dial",
-                          "otherwise the checkout owns its connector", "dialing checkout built with connector=%s" % sorted(map(str, connector_vals)), c.where())
-                rr = f.roots(c.args[3])
-                ctx.check(any(r.kind == "arg" and r.desc == "connector" for r in rr), "Pool::checkout|dial-own-connector",
-                          "the dialing checkout receives the caller's connector", "connector roots: %s" % sorted(map(repr, rr)), c.where())
-    ctx.check(all(kinds.get(k, 0) >= 1 for k in classes), "Pool::checkout|three-outcomes", "idle hit, dependent wait and dial are all present (%s)" % kinds,
-              "Pool::checkout lacks one of the three outcomes: %s" % kinds)
-    # no way to a Checkout::new other than through the three classes: the pop test and the contains test dominate them
-    for c in news:
-        ok, w = f.must_pass(0, [c.bb], pop_sw)
-        ctx.check(ok, "Pool::checkout|outcome-after-pop-test", "every checkout is built after the idle list was consulted", "a checkout can be built without consulting the idle list", c.where(), f.path_desc(w))
-    ins = calls_on_field(f, "connecting", HSET + "::insert")
-    ctx.floor("Pool::checkout|marker-insert", len(ins), 1, "connecting.insert in Pool::checkout")
-    for c in ins:
-        ok1, w1 = f.guarded(c.bb, lambda lab: lab.kind == "bool" and lab.cond.kind == "arg" and lab.cond.name == "multiplex" and lab.value is True)
-        ctx.check(ok1, "Pool::checkout|marker-only-multiplex", "the in-flight marker is set only for multiplexed checkouts",
-                  "marker set for a non-multiplexed checkout", c.where(), f.path_desc(w1))
-        ok2, w2 = f.guarded(c.bb, dep_false)
-        ctx.check(ok2, "Pool::checkout|marker-only-first", "the marker is set only when no attempt is in flight",
-                  "marker set although an attempt is in flight", c.where(), f.path_desc(w2))
-    # the dependent flag stored with the sender is the contains() result
-    for c in pb:
-        d = f.unique_def(op_place(c.args[1])["l"]) if op_place(c.args[1]) else None
-        if d and d[0] == "stmt" and d[3]["r"]["k"] == "agg" and "tuple" in d[3]["r"] and len(d[3]["r"]["ops"]) == 2:
-            rr = f.roots(d[3]["r"]["ops"][1], through_calls=False)
-            ctx.check(any(r.kind == "call" and r.site.is_(HSET + "::contains") for r in rr), "Pool::checkout|dependent-flag",
-                      "a waiter is tagged dependent exactly when connecting.contains(token) held at enqueue time",
-                      "dependent flag roots: %s" % sorted(map(repr, rr)), c.where())
-        else:
-            ctx.undecided("Pool::checkout|dependent-flag", "enqueued value is not a (sender, dependent) tuple", c.where())
-    # multiplex on dial: the multiplexed dialer must register (checked above by presence of insert on the dial path)
-    for c in news:
-        pass
-
-
-# ------------------------------------------------------------------ P10 / P11
 
 def only(rule, *needles, floor=1, label=None):
     """A rule restricted to the obligations whose key mentions one of `needles` (a property claims exactly the clauses that
@@ -578,41 +478,10 @@ def P11(ctx, facts):
 
 
 def P14(ctx, facts):
-    new = facts.unit(facts.fn("client::pool::checkout::Checkout::new"))
-    ctx.touched(new)
-    dd = new.aggregates("client::pool::checkout::InnerCheckoutConnecting", "ConnectingWithDelayDrop")
-    cc = new.aggregates("client::pool::checkout::InnerCheckoutConnecting", "Connecting")
-    ctx.floor("Checkout::new|delayed-variant", len(dd), 1, "ConnectingWithDelayDrop constructions")
-    ctx.floor("Checkout::new|plain-variant", len(cc), 1, "Connecting constructions")
-
-    def cap(val):
-        def pred(lab):
-            if lab.kind != "bool" or lab.value is not val:
-                return False
-            c = lab.cond
-            return c.kind == "place" and any(isinstance(e, dict) and e.get("n") == "continue_after_preemption" for e in c.place["p"])
-        return pred
-
-    for (b, i, s) in dd:
-        ok, w = new.guarded(b, cap(True))
-        ctx.check(ok, "Checkout::new|delayed-iff-enabled", "the delayed-drop variant is chosen exactly when continue_after_preemption is true",
-                  "ConnectingWithDelayDrop built without continue_after_preemption == true", new.where(b), new.path_desc(w))
-        rr = new.roots(s["r"]["ops"][0])
-        ctx.check(any(r.kind == "arg" and r.desc.split(".")[0] == "connect" for r in rr), "Checkout::new|delayed-owns-connector", "it owns the caller's connector",
-                  "connector roots: %s" % sorted(map(repr, rr)), new.where(b))
-    for (b, i, s) in cc:
-        ok, w = new.guarded(b, cap(False))
-        ctx.check(ok, "Checkout::new|plain-iff-disabled", "the plain variant (dropped with the checkout) is chosen exactly when continue_after_preemption is false",
-                  "Connecting built without continue_after_preemption == false", new.where(b), new.path_desc(w))
-    # states: connection present -> Connected; no connector -> pure waiter (Waiting::Connecting + Inner::Waiting)
-    wc = new.aggregates("client::pool::checkout::Waiting", "Connecting")
-    iw = new.aggregates("client::pool::checkout::InnerCheckoutConnecting", "Waiting")
-    ctx.check(len(wc) == 1 and len(iw) == 1, "Checkout::new|pure-waiter-state", "a checkout without connection and connector waits on the channel only (Waiting::Connecting + Waiting)",
-              "pure-waiter state not built exactly once (%d, %d)" % (len(wc), len(iw)))
-    for (b, i, s) in wc + iw:
-        ok, w = new.guarded(b, lambda lab: lab.kind == "variant" and lab.variants == {"None"})
-        ctx.check(ok, "Checkout::new|pure-waiter-iff-no-connector", "the pure-waiter state is chosen only when no connector was given",
-                  "pure-waiter state reachable with a connector", new.where(b), new.path_desc(w))
+    # the state a new checkout starts in (delayed-drop iff continue_after_preemption, owning the caller's connector; a pure
+    # waiter iff it has neither connection nor connector) is part of the Pool::checkout table
+    import pooltable
+    pooltable.checkout_table(ctx, facts)
     ad = facts.unit(facts.fn("client::pool::checkout::Checkout::as_delayed"))
     ctx.touched(ad)
     lits = ad.aggregates("client::pool::checkout::Checkout")
